@@ -379,6 +379,11 @@ func (cv CertValidity) toTimeStruct() (config.CertificateValidity, error) {
 		}
 	}
 
+	// neither X.509 nor the JSON form the configuration hash is made from can express a date after the year 9999
+	if out.Until.Year() > 9999 {
+		return out, errors.New(`config-v1: the validity ends after the year 9999`)
+	}
+
 	return out, nil
 }
 
